@@ -77,7 +77,7 @@ func apply(w *world.World, e *Event) bool {
 		w.SetLag(e.G, false)
 		return true
 	case "shuffle":
-		w.ShuffleOrders()
+		w.ShuffleOrdersSeeded(int64(e.A))
 		return true
 	}
 	fatal("unknown event", e.Ev)
@@ -162,6 +162,7 @@ type genOpts struct {
 	twinAll   bool
 	dryPct    int
 	fine      bool // large node sizes (in units), so that utilisation takes fine-grained values
+	iso       bool
 }
 
 // weights of the event kinds per profile (per cent-ish; normalised when drawn)
@@ -386,16 +387,16 @@ func genStep(r *rand.Rand, w *world.World, o genOpts, nextID map[string]int, ste
 			mn := r.Intn(3)
 			return Event{Ev: "asg_edit", G: g, A: mn, B: mn + 1 + r.Intn(o.maxNodes+2)}
 		}
-		return Event{Ev: "shuffle"}
+		return Event{Ev: "shuffle", A: 1 + r.Intn(1000000)}
 	case "restart":
 		return Event{Ev: "restart"}
 	case "lag":
 		if o.lag {
 			return Event{Ev: []string{"lag_on", "lag_off"}[r.Intn(2)], G: g}
 		}
-		return Event{Ev: "shuffle"}
+		return Event{Ev: "shuffle", A: 1 + r.Intn(1000000)}
 	}
-	return Event{Ev: "shuffle"}
+	return Event{Ev: "shuffle", A: 1 + r.Intn(1000000)}
 }
 
 func genFaults(r *rand.Rand, st *world.State, g string) []world.Fault {
@@ -441,6 +442,7 @@ func cmdDrive(fs *flag.FlagSet, args []string) {
 	twinAll := fs.Bool("twin", false, "twin-scan a clone with a fresh controller at every scan")
 	dryPct := fs.Int("dry", 12, "percent of groups in dry mode")
 	fine := fs.Bool("fine", false, "large node sizes: fine-grained utilisation values")
+	iso := fs.Bool("iso", false, "isolation twin: re-run every history without the events of one group and record both call sequences (C12)")
 	trace := fs.String("trace", "trace.ndjson", "output: scan lines for TLC")
 	events := fs.String("events", "", "output: all events (for replay)")
 	par := fs.Int("par", 1, "parallel histories (metrics are process-global: keep 1 when gauges matter)")
@@ -452,7 +454,7 @@ func cmdDrive(fs *flag.FlagSet, args []string) {
 		ev = newOut(*events)
 		defer ev.close()
 	}
-	o := genOpts{maxNodes: *maxNodes, maxGroups: *maxGroups, steps: *steps, faultPct: *faultPct, fleet: *fleet, lag: *lag, odd: *odd, profile: *profile, twinAll: *twinAll, dryPct: *dryPct, fine: *fine}
+	o := genOpts{maxNodes: *maxNodes, maxGroups: *maxGroups, steps: *steps, faultPct: *faultPct, fleet: *fleet, lag: *lag, odd: *odd, profile: *profile, twinAll: *twinAll, dryPct: *dryPct, fine: *fine, iso: *iso}
 	var wg sync.WaitGroup
 	sem := make(chan struct{}, *par)
 	var mu sync.Mutex
@@ -509,6 +511,15 @@ func driveOne(src string, seed int64, o genOpts, tr, ev *out) int {
 		}
 		e.Applied = apply(w, &e)
 		evs = append(evs, e)
+	}
+	if o.iso {
+		isoTwin(src, seed, init, evs, lines, r, tr)
+		if ev != nil {
+			for _, e := range evs {
+				ev.emit(e)
+			}
+		}
+		return scans
 	}
 	for _, l := range lines {
 		tr.emit(l)
@@ -575,4 +586,84 @@ func cmdReplay(fs *flag.FlagSet, args []string) {
 		idx++
 	}
 	fmt.Printf("{\"scans\":%d}\n", scans)
+}
+
+// IsoLine records one scan of a history (A) and of its twin (B), which lacks every environment event of group H.
+type IsoLine struct {
+	Ev     string       `json:"ev"`
+	Src    string       `json:"src"`
+	ID     int          `json:"id"`
+	H      string       `json:"h"`
+	Gorder []string     `json:"gorder"`
+	CallsA []world.Call `json:"callsA"`
+	CallsB []world.Call `json:"callsB"`
+	RetA   string       `json:"retA"`
+	RetB   string       `json:"retB"`
+	Dropped int         `json:"dropped"` // environment events of H dropped so far
+	FatalSeen bool      `json:"fatalSeen"` // a fatal stop (or panic / exit) has occurred in either run: later scans are not comparable
+}
+
+func groupOfEvent(e Event, gorder []string) string {
+	if e.G != "" {
+		return e.G
+	}
+	if e.N != "" {
+		for _, g := range gorder {
+			if g[:1] == e.N[:1] {
+				return g
+			}
+		}
+	}
+	return ""
+}
+
+func isoTwin(src string, seed int64, init *world.State, evs []interface{}, lines []interface{}, r *rand.Rand, tr *out) {
+	if len(init.Gorder) < 2 {
+		return
+	}
+	h := init.Gorder[r.Intn(len(init.Gorder))]
+	tw, err := world.Build(seed, init)
+	if err != nil {
+		return
+	}
+	li, dropped := 0, 0
+	fatal := false
+	for _, x := range evs {
+		e, ok := x.(Event)
+		if !ok || e.Ev == "init" {
+			continue
+		}
+		if e.Ev == "scan" {
+			if li >= len(lines) {
+				break
+			}
+			a := lines[li].(*world.Line)
+			li++
+			var faults []world.Fault
+			for _, f := range e.Faults {
+				faults = append(faults, f)
+			}
+			b := tw.Scan(faults)
+			strip := func(cs []world.Call) []world.Call {
+				out := []world.Call{}
+				for _, c := range cs {
+					if c.Op != "describe_asgs" {
+						out = append(out, c)
+					}
+				}
+				return out
+			}
+			il := IsoLine{Ev: "iso", Src: src, ID: a.ID, H: h, Gorder: init.Gorder, CallsA: strip(a.Calls), CallsB: strip(b.Calls), RetA: a.Ret, RetB: b.Ret, Dropped: dropped, FatalSeen: fatal}
+			tr.emit(il)
+			if a.Ret != "nil" || b.Ret != "nil" || a.Panic || b.Panic || a.Exit || b.Exit {
+				fatal = true
+			}
+			continue
+		}
+		if e.Ev != "tick" && e.Ev != "restart" && e.Ev != "shuffle" && groupOfEvent(e, init.Gorder) == h {
+			dropped++
+			continue
+		}
+		apply(tw, &e)
+	}
 }
